@@ -17,7 +17,7 @@ of the source (a hoisted constant, a precompiled `struct.Struct`, an extra local
      statement S of the same block (anywhere in a simple statement, the test of an `if`, the iterable of a `for`) and E
      pure (operators, attribute access, subscripts, f-strings, calls of the functions/methods listed in PURE_*): E is put
      where x was.  Repeated to a fixed point;
-  4. `for v in list(E)` / `tuple(E)` -> `for v in E`;
+  4. `for v in list(E)` / `tuple(E)` -> `for v in E`, unless the function grows or otherwise changes E (finder table, append, ...);
   5. inside a loop body `if C: continue` followed by REST -> `if not C: REST` (comparison operators are flipped instead of
      wrapped in `not`);
   6. `if not C: A else: B` -> `if C: B else: A` (so the order of the branches, and with it the order of the format sites, does
@@ -286,10 +286,21 @@ def function(fn: ast.FunctionDef, tree: ast.Module, consts: bool = True, aliases
             if changed:
                 break
 
-    # 4. list(E) as the iterable of a for loop
+    # 4. list(E) as the iterable of a for loop - unless the function may change E while the loop runs: E is the table of a
+    #    find_or_insert / find_or_extend closure, or is appended to / extended / inserted into / popped from somewhere in the function
+    #    (then `for x in list(E)` is a snapshot and `for x in E` a work list: translate/c11_worklist.py reads which one it is)
+    grown: set[str] = set()
+    for n in ast.walk(fn):
+        if isinstance(n, ast.Call) and ast.unparse(n.func) in ('find_or_insert', 'find_or_extend') and n.args:
+            grown.add(ast.unparse(n.args[0]))
+        elif isinstance(n, ast.Call) and isinstance(n.func, ast.Attribute) and n.func.attr in ('append', 'extend', 'insert', 'pop', 'remove', 'clear', 'sort', 'reverse'):
+            grown.add(ast.unparse(n.func.value))
+        elif isinstance(n, (ast.Subscript,)) and isinstance(n.ctx, (ast.Store, ast.Del)):
+            grown.add(ast.unparse(n.value))
     for n in ast.walk(fn):
         if isinstance(n, ast.For):
-            while isinstance(n.iter, ast.Call) and ast.unparse(n.iter.func) in ('list', 'tuple') and len(n.iter.args) == 1 and not n.iter.keywords:
+            while isinstance(n.iter, ast.Call) and ast.unparse(n.iter.func) in ('list', 'tuple') and len(n.iter.args) == 1 and not n.iter.keywords \
+                    and ast.unparse(n.iter.args[0]) not in grown:
                 n.iter = n.iter.args[0]
 
     # 5. `if C: continue` + rest  ->  `if not C: rest`
